@@ -52,7 +52,8 @@ What is compared on every run (both views, stoichiometry on/off, node keys kind 
    carries, node keys among the arc keys and vice versa, a set-valued arc attribute, no keys at all); `ids-flipped` analyses
    inside histories.  Configurations `<name>@api` add the rest of the public surface on the same network: limits that are not
    reached (`max_depth=N+1`, `timeout_sec=1e6`, `max_count=count+1`), default limits (gated only when the call returned within
-   CLOCK_SLACK seconds and the count is below the default `max_count`), tight limits (`max_depth=0..2`, `max_count=count-1`),
+   CLOCK_SLACK seconds and the count is below the default `max_count`), tight limits (`max_depth=0..3`: every such answer — RuntimeError, early_stop, and where the label order allows canonical_perm /
+   sample_permutations / count — is the depth-capped model's, driver command `crn.irCapped`; `max_count=count-1`),
    the wrappers `canonical` / `detect_automorphisms` / `wl_canonical`, `orbits()` / `graph()` / `has_nontrivial_automorphism()` /
    `iter()`, key selections given as lists, seven WL option sets.  Gates: an answer that reports no early stop is the exact one
    (count, orbit partition, mapping set == Lean specification; canonical graph == the one of the unlimited query); where no limit
@@ -121,6 +122,11 @@ THEOREMS = [
     "SynKit.CrnCanon.crn_ir_orbits",
     "SynKit.CrnCanon.C18.ir_full",
     "SynKit.CrnCanon.crn_ir_empty_no_keys",
+    "SynKit.CrnCanon.crnDepth_spec",
+    "SynKit.CrnCanon.crn_irCapped_exact",
+    "SynKit.CrnCanon.crn_irCapped_full",
+    "SynKit.CrnCanon.crn_irCapped_flag_sound",
+    "SynKit.CrnCanon.crn_irCapped_partial_is_leaf",
 ]
 
 F19 = "species_label_is_edge_id"
@@ -711,6 +717,8 @@ def under_tick_clock(mod, fn):
             mod.__dict__.pop("time", None)
 
 
+CAPPED_DEPTHS = (0, 1, 2, 3)  # `summary(max_depth=d)`: below the first leaf / between / above the deepest leaf of the small views generated here
+
 TICK_LIMITS = (0.5, 2.5, 5.5)  # seconds = clock readings: the search / enumeration is cut at its 1st, 3rd, 6th reading
 
 
@@ -771,8 +779,35 @@ def api_variants(H, cfg, kw, name, res):
     attempt("canon", "summary(max_depth=N+1, timeout_sec=1e6), key selections given as lists", lambda: canon_rec(cz.summary(**big), True))
     attempt("canon", "canonical(..., max_depth=N+1, timeout_sec=1e6).summary()", lambda: canon_rec(canonical(H, edge_attr_keys=ek, **kw, **big).summary(), True))
     attempt("canon", "canonical(...).summary(timeout_sec=1e6)", lambda: canon_rec(canonical(H, edge_attr_keys=ek, **kw).summary(timeout_sec=10 ** 6), True))
-    for d in (0, 1, 2):
-        attempt("canon", f"summary(max_depth={d})", lambda d=d: canon_rec(CRNCanonicalizer(H, edge_attr_keys=ek, **kw).summary(max_depth=d), False), may_give_up=True)
+    # max_depth that IS reached: besides the gates on what the answer claims, every such answer is compared with the depth-capped
+    # model (`crn.irCapped`, SynKitModel/CrnIR.lean `crnSearchCapped`), which visits cells and members in id order: the view is
+    # handed over with its nodes interned order-preservingly (`sorted(G.nodes())` -> 0, 1, ...), as in the IR correspondence stream
+    sidx = None
+    try:
+        comparable, order_safe = ir_label_scope(cz.G, cfg)
+        if comparable:
+            sidx = {v: i for i, v in enumerate(sorted(cz.G.nodes()))}
+            out["capped_view"] = {"graph": enc_graph(cz.G, lambda v: sidx[v]), "order_safe": bool(order_safe)}
+    except (TypeError, ValueError):  # node ids that do not sort / a value the protocol does not carry: no exact gate
+        sidx = None
+        out.pop("capped_view", None)
+    for d in CAPPED_DEPTHS:
+        box = {}
+
+        def capped_call(d=d, box=box):
+            box["s"] = CRNCanonicalizer(H, edge_attr_keys=ek, **kw).summary(max_depth=d)
+            return canon_rec(box["s"], False)
+        rec = attempt("canon", f"summary(max_depth={d})", capped_call, may_give_up=True)
+        if sidx is not None and "error" not in rec:
+            try:
+                if "gave_up" in rec:
+                    rec["capped"] = {"d": d, "error": "RuntimeError"}
+                elif "s" in box:
+                    s_ = box["s"]
+                    rec["capped"] = {"d": d, "error": None, "early_stop": bool(s_["early_stop"]), "order": [sidx[v] for v in s_["canonical_perm"]],
+                                     "perms": [[sidx[v] for v in p] for p in s_["sample_permutations"]], "count": int(s_["automorphism_count"])}
+            except (KeyError, TypeError):
+                pass  # an answer naming foreign nodes is reported by the `foreign` gate
     attempt("canon", "orbits(max_depth=N+1, timeout_sec=1e6)", lambda: {"orbits_raw": parts(cz.orbits(**big)), "complete": True, "must": True})
     attempt("canon", "graph(max_depth=N+1, timeout_sec=1e6)", lambda: {"graph": enc_graph(cz.graph(**big), cid), "complete": True, "must": True})
     attempt("canon", "has_nontrivial_automorphism(max_depth=N+1, timeout_sec=1e6)", lambda: {"nontrivial": bool(cz.has_nontrivial_automorphism(**big)), "complete": True, "must": True})
@@ -917,6 +952,12 @@ def _evaluate(ctx, families, tag, all_pairs=True, shrink=True):
         for j, w in enumerate(r.get("api", {}).get("wl", [])):
             if "graph" in w:
                 reqs.append({"cmd": "crn.iso", "host": vg, "pattern": canon_sets(w["graph"]), **sel(cfg)}); slots.append((k, f"api_wl_iso:{j}"))
+        cv = r.get("api", {}).get("capped_view")
+        if cv is not None:  # the depth-capped model for every `summary(max_depth=d)` that was asked (ranks: leaf depths, once)
+            for rec in r["api"]["canon"]:
+                if "capped" in rec:
+                    d = rec["capped"]["d"]
+                    reqs.append({"cmd": "crn.irCapped", "graph": cv["graph"], "max_depth": d, "ranks": d == CAPPED_DEPTHS[0], **sel(cfg)}); slots.append((k, f"capped:{d}"))
         reqs.append({"cmd": "crn.analyse", "graph": vg, **sel(cfg)}); slots.append((k, "analyse"))
         if len(vg["nodes"]) <= 9:
             reqs.append({"cmd": "crn.isos", "host": vg, "pattern": vg, **sel(cfg)}); slots.append((k, "auts"))
@@ -1110,6 +1151,37 @@ def check_aut(report, who, a, lk, want, ids, fi, ni, cn, r, maps_ok):
                {"impl": a["nontrivial"], "spec_count": want["count"]}, [r], single=True)
 
 
+def check_capped(ctx, report, rec, lk, cv, fi, ni, cn, r):
+    """`summary(max_depth=d)` against the depth-capped model (`crn.irCapped`; theorems crn_irCapped_exact / _full / _flag_sound /
+    _partial_is_leaf): the search is cut at the first call deeper than d.  RuntimeError and early_stop do not depend on the label
+    order and are gated for every d; canonical_perm, sample_permutations and automorphism_count are those of the model whenever
+    the string order of the labels is the structural order on this view (`ir_label_scope`: order_safe, one node segment)."""
+    cap = rec["capped"]
+    d = cap["d"]
+    m = lk[f"capped:{d}"]
+    meta = lk.get(f"capped:{CAPPED_DEPTHS[0]}", {})
+    ds = meta.get("leaf_depths") or []
+    zone = "?" if not ds else ("below_first_leaf" if d < ds[0] else "complete" if d >= max(ds) else "between")
+    want = "error" if m["error"] else ("early" if m["early_stop"] else "full")
+    got = "error" if cap["error"] else ("early" if cap["early_stop"] else "full")
+    bad = None
+    if want != got:
+        bad = ("RuntimeError / early_stop differ from the search cut at the first call deeper than max_depth", {"impl": got, "model": want})
+    elif want != "error" and cv["order_safe"] and meta.get("same_nodes"):
+        for key in ("order", "perms", "count"):
+            if cap[key] != m[key]:
+                bad = (f"{'canonical_perm' if key == 'order' else 'sample_permutations' if key == 'perms' else 'automorphism_count'} differs from the search cut at the first call deeper than max_depth",
+                       {"impl": cap[key], "model": m[key]})
+                break
+        ctx.count("api:capped:answer_gated")
+    elif want != "error":
+        ctx.count("api:capped:answer_not_gated(string order of labels differs from structural order)")
+    ctx.count(f"api:capped:{zone}:{want}:" + ("agree" if bad is None else "DIFFER"))
+    if bad:
+        report(f"CRNCanonicalizer: summary(max_depth=d): {bad[0]} (depth-capped model)", fi, [ni], cn,
+               dict(bad[1], max_depth=d, leaf_depths=ds[:40], zone=zone, call=rec["how"]), [r], single=True)
+
+
 def check_api(ctx, report, api, c, v, lk, want, ids, cfg, fi, ni, cn, r):
     """Gates on the other ways of asking (see `api_variants`).  An answer that claims to be complete (no early stop reported)
     must be the exact one, whatever limits were given; where no limit can have been reached the answer must be complete.
@@ -1127,6 +1199,8 @@ def check_api(ctx, report, api, c, v, lk, want, ids, cfg, fi, ni, cn, r):
             if "foreign" in rec:
                 report(f"{who}: an answer names nodes that are not nodes of the view it was computed from (asked another way)", fi, [ni], cn, {"call": how, "node": rec["foreign"]}, [r], single=True)
                 continue
+            if "capped" in rec and f"capped:{rec['capped']['d']}" in lk:
+                check_capped(ctx, report, rec, lk, r["api"]["capped_view"], fi, ni, cn, r)
             if "gave_up" in rec:
                 continue
             if "partial" in rec:  # an answer under a limit that was (or may have been) reached, with no completeness claim attached: soundness only
@@ -1333,6 +1407,19 @@ def random_net(rnd, max_species=6, max_rxns=5):
         co = lambda: rnd.choice([1, 1, 1, 2, 2, 3])
         rxns.append(rx([(s, co()) for s in R], [(s, co()) for s in P], rule=rnd.choice(rules)))
     return {"rxns": rxns, "isolated": (["I"] if rnd.random() < 0.08 else [])}
+
+
+def uneven_depth_nets():
+    """Two networks whose SPECIES view is one refinement cell holding several orbits (a cubic graph on 8 species, every edge a reversible
+    pair of reactions): the leaves of the search lie at depths 1 and 2, so `max_depth=1` lies between the first and the deepest leaf.
+    In the first the first leaf is a deep one (max_depth=1: RuntimeError although shallower leaves exist), in the second — the species
+    names A and B exchanged — a shallow one (max_depth=1: an answer from one leaf, early_stop True).  Species configurations only: the
+    bipartite view of these networks has thousands of leaves."""
+    E = [(0, 3), (0, 4), (0, 7), (1, 2), (1, 3), (1, 6), (2, 4), (2, 5), (3, 6), (4, 7), (5, 6), (5, 7)]
+    out = []
+    for names in ("ABCDEFGH", "BACDEFGH"):
+        out.append({"rxns": [q for u, v in E for q in (rx([(names[u], 1)], [(names[v], 1)]), rx([(names[v], 1)], [(names[u], 1)]))]})
+    return out
 
 
 def symmetric_families():
@@ -2049,7 +2136,9 @@ def run(ctx):
         "that are exchangeable), falling back to the documented numbering species 1..N, reactions N+1..N+M; the property fixes no numbering",
         "limits: an analyser that reports no early stop (early_stop / stopped_early False) claims the exact answer whatever limits it was given; a limit above the size of the search "
         "(max_depth >= number of nodes, max_count > automorphism count, a time limit of 1e6 s, or a default time limit >= 5 s on a call that returned within 2 s) is not reached; "
-        "under tight limits a RuntimeError ('canonical form not found') or a reported early stop is accepted and nothing else is demanded",
+        "under tight limits a RuntimeError ('canonical form not found') or a reported early stop is accepted; for summary(max_depth=d) WHICH of the two (or neither) happens, "
+        "and the answer that is returned, are the depth-capped model's (crnSearchCapped, driver command crn.irCapped, view interned in sorted(G.nodes()) order; answer gated when "
+        "the string order of the labels is the structural order on the view)",
         "answers under a limit that was reached: only what they claim is gated - a summary without early_stop / stopped_early claims exactness; CRNAutomorphism.iter(max_count=k) that ends "
         "before k mappings claims to have listed all of them (so it yields min(k, count) different self-maps); iter / orbits / has_nontrivial_automorphism cut by a time limit or a "
         "sample limit carry no flag and are gated for soundness only (sub-orbits, genuine self-maps, True only with a witness); a clock that advances one second per reading is a legal environment",
@@ -2144,6 +2233,8 @@ def run(ctx):
     for _ in range(30 if ctx.quick else 400):
         net = random_net(rnd, max_species=5, max_rxns=4)
         fams.append(([net], [c + "@api" for c in rnd.sample(EVERY, 2)]))
+    for net in uneven_depth_nets():  # leaves at different depths: a max_depth between the first and the deepest leaf
+        fams.append(([net], ["species+stoich@api", "species-stoich@api"]))
     ctx.count("families:api", len(fams))
     for b in batches(fams, 100):
         if len(ctx.violations) < 20:
